@@ -7,6 +7,7 @@ RULE = ("programs: call depth 0..MaxDepth x 13 failure kinds (expressions mentio
         "through one call site, function of an imported source module) x k in {0,1,3} prepended blank lines, one statement per line; "
         "expected trace = call-statement line of every active function, outermost first, then the failing line; replayed with the "
         "optimizer on/off and after an encode/decode round trip; every position must lie inside the text of its file; "
+        "module styles also with the module delivered from a file starting with an interpreter line through importers.FileImporter / ShebangReadFile (positions are positions in the file); "
         "non-trivial = depth >= 1")
 
 def run(ctx):
